@@ -251,17 +251,8 @@ fn mat_determinant_translation() {
     assert!(translate(t).determinant() == 1.0);
 }
 
-// @ob props=C09 tier=thorough kind=P cfg=core-std timeout=5400
-// @fn Mat4x4<RealToReal>::determinant
-// @clause the determinant of scale(s) is the product of the diagonal, for |s| components up to 1e6
-#[cfg(not(verif_skip_mat_determinant_scale))]
-#[kani::proof]
-#[kani::unwind(6)]
-fn mat_determinant_scale() {
-    let s = vec3(any_in(-1.0e6, 1.0e6), any_in(-1.0e6, 1.0e6), any_in(-1.0e6, 1.0e6));
-    kani::cover!(true);
-    assert!(scale(s).determinant() == s.x() * (s.y() * s.z()));
-}
+// Tried and dropped: determinant(scale(s)) = s.x * (s.y * s.z) for symbolic s: no verdict in 29 min (the cofactor expansion has
+// dozens of symbolic products, most of them with a zero factor, that CBMC does not simplify away; limit L1).
 
 // @ob props=C09 tier=quick kind=P cfg=core-std timeout=900 role=witness
 // @fn translate ; Mat4x4<RealToReal>::apply
